@@ -51,6 +51,11 @@ type Job struct {
 	Release      []string `json:"release,omitempty"`
 	// Test selects EvalTest instead of EvalPath.
 	Test bool `json:"test,omitempty"`
+	// Decoy: a second interpreter with other streams, arguments and
+	// environment is created and loaded with the standard library after the
+	// one which runs the job, and evaluates a small program on its own
+	// streams first (interpreters of one process must not share anything).
+	Decoy bool `json:"decoy,omitempty"`
 }
 
 // DefaultBudget is the default operation budget of a job.
@@ -166,6 +171,14 @@ func NewInterp(j *Job, stdout, stderr io.Writer) *interp.Interpreter {
 	}
 	if j.GOOS != "" || j.GOARCH != "" || j.Release != nil {
 		i.VerifSetBuildContext(j.GOOS, j.GOARCH, j.Release)
+	}
+	if j.Decoy {
+		dout := &syncBuf{max: 1 << 16}
+		d := interp.New(interp.Options{Stdout: dout, Stderr: dout, Stdin: strings.NewReader("decoy-stdin\n"), Args: []string{"decoy", "-x"}, Env: []string{"DECOY=1", "VERIF_SENTINEL=decoy"}, Unrestricted: j.Unrestricted})
+		if err := d.Use(stdlib.Symbols); err != nil {
+			panic(err)
+		}
+		_, _ = d.Eval("package main\n\nimport (\n\t\"fmt\"\n\t\"os\"\n)\n\nfunc main() {\n\tfmt.Println(\"decoy\", os.Args, os.Getenv(\"DECOY\"))\n\tos.Setenv(\"DECOY2\", \"2\")\n}\n")
 	}
 	return i
 }
